@@ -129,8 +129,24 @@ def main(rec):
     libs = gen.libraries(thorough, count=(60 if thorough else 12), salt="c16")
     if not thorough:
         libs = [x for i, x in enumerate(libs) if x[0].startswith("gmix") or i % 8 == common.seed() % 8]
-    for name, d, meta in libs:
-        descs.append((name, normalise_base(d), ["--logdir", "out", "--outdir", "out"], None, "work/%s.yaml" % name))
+    # user code in the structural splicer blocks of every emitter (file tops, module parts, declarations / definitions):
+    # it is code, so none of the five options may add, drop or move it
+    USER_CODE = {
+        "f": {"file_top": ["#define VF_USER_FTOP 1"], "module_use": ["use iso_c_binding, only : C_SHORT"],
+              "module_top": ["integer, parameter :: vf_user_module_top = 1"],
+              "additional_functions": ["subroutine vf_user_sub()", "end subroutine vf_user_sub"]},
+        "c": {"C_declarations": ["#define VF_USER_CDECL 1"], "CXX_declarations": ["#define VF_USER_CXXDECL 1"],
+              "C_definitions": ["int vf_user_cdef = 1;"], "CXX_definitions": ["int vf_user_cxxdef = 1;"]},
+        "py": {"include": ["#define VF_USER_PYINC 1"], "C_definition": ["static int vf_user_pydef = 1;"],
+               "additional_functions": ["static int vf_user_pyfun(void) { return 1; }"]},
+        "lua": {"include": ["#define VF_USER_LUAINC 1"], "C_definition": ["static int vf_user_luadef = 1;"]},
+    }
+    for li, (name, d, meta) in enumerate(libs):
+        d = normalise_base(d)
+        if name.startswith("gmix") and li % 2 == 0:
+            d["splicer_code"] = copy.deepcopy(USER_CODE)
+            name = name + "+usercode"
+        descs.append((name, d, ["--logdir", "out", "--outdir", "out"], None, "work/%s.yaml" % name.replace("+usercode", "")))
 
     all_combos = [dict(zip(OPTS, bits)) for bits in itertools.product([False, True], repeat=5)]
     off = all_combos[0]
